@@ -4,8 +4,8 @@
   (`FuseQ.simplexQ`, `FuseQ.baseRateQ`, `FuseQ.fuseQ`, `acmB/acmU`, …).  No property statements.   ε = f.eps.
 
   INDEX
-  symmetry      `XQ.ulpsEq_comm`, `sc_comm`, `simplexQ_comm` (all arms, any rationals), `baseRateQ_comm_within`
-                (per entry, all arms), `baseRateQ_comm` (shortcut only at equal entries), `fuseQ_comm`.
+  symmetry      `XQ.ulpsEq_comm`, `sc_comm`, `simplexQ_comm` (all arms, any rationals), `short_swap`, `baseRateQ_comm`
+                (all arms, any rationals, unconditional since repair c8a7116), `baseRateQ_comm_within`, `fuseQ_comm`.
   idempotence   `simplexQ_idem_avg/_wgh`, `simplexQ_idem_within`, `baseRateQ_idem`.
   neutral       `simplexQ_neutral_right/left`, `baseRateQ_neutral_right/left`.
   uncertainty   `acmU_le_left/right`, `avgU_between`, `wghU_between`, `simplexQ_acm_u_le`, `…_avg_u`, `…_wgh_u`.
@@ -37,7 +37,7 @@ theorem XQ.ulpsEq_comm (x y : ℚ) :
 namespace C07
 
 theorem sc_comm (a1 a2 : Fin n → ℚ) (i : Fin n) : sc f a1 a2 i = sc f a2 a1 i := by
-  unfold sc; exact XQ.ulpsEq_comm _ _
+  unfold sc; exact decide_eq_decide.mpr eq_comm
 
 /-! ### commutativity of the belief ladder (no well-formedness needed) -/
 
@@ -121,19 +121,23 @@ theorem gap_nonneg (a1 a2 : Fin n → ℚ) (i : Fin n) : 0 ≤ gap f a1 a2 i := 
 theorem within_refl (a1 a2 : Fin n → ℚ) (x : ℚ) (i : Fin n) : |x - x| ≤ gap f a1 a2 i := by
   rw [sub_self, abs_zero]; exact gap_nonneg a1 a2 i
 
-/-- the shortcut with swapped operands returns the OTHER operand's entry -/
+/-- the shortcut with swapped operands returns the other operand's entry -- the SAME value, the shortcut being taken
+    at equal entries only (since repair c8a7116) -/
+theorem short_swap (a1 a2 g : Fin n → ℚ) : short f a1 a2 g = short f a2 a1 g := by
+  funext i
+  unfold short; rw [sc_comm a2 a1]; split
+  · exact sc_iff.mp ‹_›
+  · rfl
+
 theorem short_swap_within (a1 a2 g : Fin n → ℚ) (i : Fin n) :
     |short f a1 a2 g i - short f a2 a1 g i| ≤ gap f a1 a2 i := by
-  unfold short gap; rw [sc_comm a2 a1]; split
-  · exact le_refl _
-  · rw [sub_self, abs_zero]
+  rw [short_swap a2 a1, sub_self, abs_zero]; exact gap_nonneg a1 a2 i
 
-/-- the guard ladder of `compute_base_rate` with swapped operands: every arm is symmetric except for the
-    per-entry `ulps_eq!` shortcut, which returns the LEFT entry; so the two orders differ at entry `i`
-    by at most `|a1 i - a2 i|` at a shortcut entry and not at all elsewhere -/
-theorem baseRateQ_comm_within (f : Fmt) (op : FuseOp) (a1 : Fin n → ℚ) (u1 : ℚ) (a2 : Fin n → ℚ) (u2 : ℚ)
-    (i : Fin n) :
-    |baseRateQ f op false a1 u1 a2 u2 i - baseRateQ f op false a2 u2 a1 u1 i| ≤ gap f a1 a2 i := by
+/-- the guard ladder of `compute_base_rate` is symmetric in its operands, in EVERY arm, for every operator, for all
+    rational operands: the clone arms never overlap, the weighted formulas are symmetric, and the per-entry
+    shortcut is taken at equal entries only -/
+theorem baseRateQ_comm (f : Fmt) (op : FuseOp) (a1 : Fin n → ℚ) (u1 : ℚ) (a2 : Fin n → ℚ) (u2 : ℚ) :
+    baseRateQ f op false a1 u1 a2 u2 = baseRateQ f op false a2 u2 a1 u1 := by
   unfold baseRateQ
   simp only [Bool.false_eq_true, if_false]
   rw [meanA_comm a2 a1, acmA_comm a2 a1 u2 u1, wghA_comm a2 a1 u2 u1]
@@ -146,33 +150,100 @@ theorem baseRateQ_comm_within (f : Fmt) (op : FuseOp) (a1 : Fin n → ℚ) (u1 :
         simp only [d1, d2, v1, v2, and_self, and_true, true_and, and_false, false_and, or_self, or_true,
           true_or, or_false, false_or, if_true, if_false] <;>
         first
-        | (rw [sub_self, abs_zero]; exact gap_nonneg _ _ _)
-        | exact short_swap_within a1 a2 _ i)
+        | rfl
+        | exact short_swap a1 a2 _)
 
-/-- … hence equal when the shortcut is only taken at equal entries -/
-theorem baseRateQ_comm (f : Fmt) (op : FuseOp) {a1 a2 : Fin n → ℚ} (u1 u2 : ℚ)
-    (hsc : ∀ i, sc f a1 a2 i = true → a1 i = a2 i) :
-    baseRateQ f op false a1 u1 a2 u2 = baseRateQ f op false a2 u2 a1 u1 := by
-  funext i
-  have h := baseRateQ_comm_within f op a1 u1 a2 u2 i
-  have hz : gap f a1 a2 i = 0 := by
-    unfold gap; split
-    · rw [hsc i ‹_›, sub_self, abs_zero]
-    · rfl
-  rw [hz] at h
-  exact sub_eq_zero.mp (abs_eq_zero.mp (le_antisymm h (abs_nonneg _)))
+/-- (kept from the `ulps_eq!` shortcut, whose two orders differed by `|a1 i - a2 i|` at a shortcut entry; now a
+    consequence of `baseRateQ_comm`) -/
+theorem baseRateQ_comm_within (f : Fmt) (op : FuseOp) (a1 : Fin n → ℚ) (u1 : ℚ) (a2 : Fin n → ℚ) (u2 : ℚ)
+    (i : Fin n) :
+    |baseRateQ f op false a1 u1 a2 u2 i - baseRateQ f op false a2 u2 a1 u1 i| ≤ gap f a1 a2 i := by
+  rw [baseRateQ_comm f op a2 u2 a1 u1, sub_self, abs_zero]; exact gap_nonneg a1 a2 i
 
-/-- the hypothesis "shortcut only at equal entries" is symmetric -/
+/-- the statement "shortcut only at equal entries" is symmetric (and true: `FuseQ.hsc`) -/
 theorem hsc_symm {a1 a2 : Fin n → ℚ} (hsc : ∀ i, sc f a1 a2 i = true → a1 i = a2 i) :
     ∀ i, sc f a2 a1 i = true → a2 i = a1 i := fun i h => (hsc i (by rw [sc_comm]; exact h)).symm
 
+/-! ### the MODEL's `compute_base_rate` commutes for ALL operands (any extended values: finite, ±∞, NaN) -/
+
+theorem XQ.add_comm_all (a b : XQ f) : (a + b : XQ f) = b + a := by
+  show XQ.add a b = XQ.add b a
+  cases a <;> cases b <;> simp [XQ.add, add_comm]
+
+/-- IEEE `==` on the extended rationals is symmetric … -/
+theorem XQ.eq_comm_all (a b : XQ f) : Scalar.eq a b = Scalar.eq b a := by
+  show XQ.eq a b = XQ.eq b a
+  cases a <;> cases b <;> simp [XQ.eq, eq_comm]
+
+/-- … and (no signed zeros in `XQ`) true only of identical values -/
+theorem XQ.eq_of_eq_true {a b : XQ f} (h : Scalar.eq a b = true) : a = b := by
+  change XQ.eq a b = true at h
+  cases a <;> cases b <;> simp_all [XQ.eq]
+
+/-- no value is both `is_one` and `is_zero` -/
+theorem XQ.isZero_of_isOne {u : XQ f} (h : isOne u = true) : isZero u = false := by
+  change XQ.isOne u = true at h
+  show XQ.isZero u = false
+  have he := XQ.eps_lt f
+  have h0 := XQ.eps_pos f
+  cases u <;> simp_all [XQ.isOne, XQ.isZero, XQ.absQ_eq_abs]
+  rename_i q
+  rw [abs_of_nonneg (by linarith [h.1])]; linarith [h.1]
+
+/-- the per-entry shortcut with swapped operands and a symmetric fall-back value -/
+theorem brEntry_comm (x y g g' : XQ f) (hg : g = g') : brEntry x y g = brEntry y x g' := by
+  unfold brEntry
+  rw [XQ.eq_comm_all y x]
+  split
+  · exact XQ.eq_of_eq_true ‹_›
+  · exact hg
+
+/-- `compute_base_rate` (distinct base-rate objects) is commutative for ALL operands: every guard arm, every
+    operator, finite or not, shortcut or not.  The clone arms never overlap (a value is not `is_one` and `is_zero`
+    at once; both-vacuous / both-dogmatic are tested first), the three formulas are symmetric up to commutativity
+    of `+` on the extended rationals, and the shortcut is taken at identical entries only. -/
+theorem computeBaseRate_comm (op : FuseOp) (l r : Opinion (XQ f) n) :
+    computeBaseRate op false l r = computeBaseRate op false r l := by
+  have hl : l.isVacuous = true → l.isDogmatic = false := XQ.isZero_of_isOne
+  have hr : r.isVacuous = true → r.isDogmatic = false := XQ.isZero_of_isOne
+  have mean : (Vector.ofFn fun i : Fin n => brEntry l.a[i] r.a[i] ((l.a[i] + r.a[i]) / two) : Tab (XQ f) n)
+      = Vector.ofFn fun i : Fin n => brEntry r.a[i] l.a[i] ((r.a[i] + l.a[i]) / two) := by
+    congr 1; funext i; exact brEntry_comm _ _ _ _ (by rw [XQ.add_comm_all])
+  have dog : (Vector.ofFn fun i : Fin n => (l.a[i] + r.a[i]) / two : Tab (XQ f) n)
+      = Vector.ofFn fun i : Fin n => (r.a[i] + l.a[i]) / two := by
+    congr 1; funext i; rw [XQ.add_comm_all]
+  have acm : (Vector.ofFn fun i : Fin n => brEntry l.a[i] r.a[i]
+        ((l.a[i] * r.u * (Scalar.one - l.u) + r.a[i] * l.u * (Scalar.one - r.u))
+          / (r.u * (Scalar.one - l.u) + l.u * (Scalar.one - r.u))) : Tab (XQ f) n)
+      = Vector.ofFn fun i : Fin n => brEntry r.a[i] l.a[i]
+        ((r.a[i] * l.u * (Scalar.one - r.u) + l.a[i] * r.u * (Scalar.one - l.u))
+          / (l.u * (Scalar.one - r.u) + r.u * (Scalar.one - l.u))) := by
+    congr 1; funext i
+    exact brEntry_comm _ _ _ _ (by rw [XQ.add_comm_all (l.a[i] * r.u * _), XQ.add_comm_all (r.u * _)])
+  have wgh : (Vector.ofFn fun i : Fin n => brEntry l.a[i] r.a[i]
+        ((l.a[i] * (Scalar.one - l.u) + r.a[i] * (Scalar.one - r.u))
+          / ((Scalar.one - l.u) + (Scalar.one - r.u))) : Tab (XQ f) n)
+      = Vector.ofFn fun i : Fin n => brEntry r.a[i] l.a[i]
+        ((r.a[i] * (Scalar.one - r.u) + l.a[i] * (Scalar.one - l.u))
+          / ((Scalar.one - r.u) + (Scalar.one - l.u))) := by
+    congr 1; funext i
+    exact brEntry_comm _ _ _ _ (by rw [XQ.add_comm_all (l.a[i] * _), XQ.add_comm_all (Scalar.one - l.u)])
+  unfold computeBaseRate
+  simp only [Bool.false_eq_true, if_false]
+  rw [mean, dog, acm, wgh]
+  cases hd1 : l.isDogmatic <;> cases hd2 : r.isDogmatic <;> cases hv1 : l.isVacuous <;> cases hv2 : r.isVacuous <;>
+    first
+    | (rw [hl hv1] at hd1; exact absurd hd1 (by decide))
+    | (rw [hr hv2] at hd2; exact absurd hd2 (by decide))
+    | (cases op <;> simp)
+
 /-- the whole closed form of `fuse` commutes (ECm included: its belief part is a function of the ACm
     simplex and the fused base rate) -/
-theorem fuseQ_comm (f : Fmt) (op : FuseOp) (b1 : Fin n → ℚ) (u1 : ℚ) {a1 : Fin n → ℚ} (b2 : Fin n → ℚ)
-    (u2 : ℚ) {a2 : Fin n → ℚ} (hsc : ∀ i, sc f a1 a2 i = true → a1 i = a2 i) :
+theorem fuseQ_comm (f : Fmt) (op : FuseOp) (b1 : Fin n → ℚ) (u1 : ℚ) (a1 : Fin n → ℚ) (b2 : Fin n → ℚ)
+    (u2 : ℚ) (a2 : Fin n → ℚ) :
     fuseQ f op false b1 u1 a1 b2 u2 a2 = fuseQ f op false b2 u2 a2 b1 u1 a1 := by
   unfold fuseQ
-  rw [simplexQ_comm f op b1 u1 b2 u2, baseRateQ_comm f op u1 u2 hsc]
+  rw [simplexQ_comm f op b1 u1 b2 u2, baseRateQ_comm f op a1 u1 a2 u2]
 
 theorem fuseQ_comm_same (f : Fmt) (op : FuseOp) (b1 : Fin n → ℚ) (u1 : ℚ) (a : Fin n → ℚ) (b2 : Fin n → ℚ)
     (u2 : ℚ) : fuseQ f op true b1 u1 a b2 u2 a = fuseQ f op true b2 u2 a b1 u1 a := by
